@@ -115,6 +115,7 @@ func main() {
 	write("VersDispatch.v", wholeFile("VersDispatch.v", "VERS dispatch", genVersDispatch))
 	write("Effects.v", genEffects())
 	genCode()
+	genLoops()
 	for _, p := range fallbacks {
 		fmt.Println("fallback " + p)
 	}
